@@ -35,6 +35,9 @@ pub enum FaultKind {
     TimedOut,
     UnexpectedEof,
     InvalidData,
+    /// kind Interrupted, raised only if the chosen source call is a *seek* (an interrupted read is
+    /// the business of `IntPat`; a seek that fails with this kind is an error like any other)
+    SeekInterrupted,
 }
 
 impl FaultKind {
@@ -50,6 +53,7 @@ impl FaultKind {
             FaultKind::TimedOut => io::ErrorKind::TimedOut,
             FaultKind::UnexpectedEof => io::ErrorKind::UnexpectedEof,
             FaultKind::InvalidData => io::ErrorKind::InvalidData,
+            FaultKind::SeekInterrupted => io::ErrorKind::Interrupted,
         }
     }
 }
@@ -116,7 +120,7 @@ impl Src {
             panic!("{}", HANG_MSG);
         }
         if let Some(f) = self.fault {
-            if f.at == idx && self.sh.fault_fired.get().is_none() {
+            if f.at == idx && self.sh.fault_fired.get().is_none() && (is_seek || f.kind != FaultKind::SeekInterrupted) {
                 self.sh.fault_fired.set(Some((idx, is_seek)));
                 self.sh.fault_in_api.set(true);
                 return Err(io::Error::new(f.kind.kind(), "injected"));
